@@ -88,6 +88,10 @@ var variants = map[string][]variant{
 		5: {Content: "---\ntitle: [unterminated\n---\n<p>bad5</p>"},
 		6: {Content: "---\n- a\n- b\n---\n<p>bad6</p>"},
 		7: {Content: "---\ntitle: T7\n---\n" + `<p data-m="page" v-for="q in">P7</p>`, LoadOK: true},
+		// 8, 9: the body rewrites front-matter keys in its root scope. Every render must start from
+		// the file's front-matter again ("visit 2", "hello!"), whatever earlier renders did.
+		8: {Content: "---\nn: 1\ngreeting: hello\n---\n" + `<template :n="n + 1" :greeting="greeting + '!'"></template><div data-m="page">P8 {{ greeting }} visit {{ n }} {{ x }}` + inc + `</div>`, LoadOK: true, RenderOK: true, Include: true},
+		9: {Content: "---\ntitle: T9\nlayout: main\nn: 5\n---\n" + `<div data-m="page">P9 <template :n="n * 2" :title="title + '+'"></template>{{ n }} {{ title }} {{ x }}` + inc + `</div>`, LoadOK: true, RenderOK: true, Layout: "main", Include: true},
 	},
 	fComp: {
 		0: {Content: `<span data-m="comp">C0 {{ title }}</span>`, LoadOK: true, RenderOK: true},
@@ -131,7 +135,7 @@ type Op struct {
 	Dt     int    `json:"dt,omitempty"`
 	Entry  string `json:"entry,omitempty"`
 	Target string `json:"target,omitempty"`
-	D      int    `json:"d,omitempty"` // which data the render passes: title "D<d>", x "X<d>"
+	D      int    `json:"d,omitempty"` // which data the render passes: 0..2 = {title "D<d>", x "X<d>"}, 3 = nil, 4 = empty map
 }
 
 // Case is an initial configuration (file -> variant; missing key = file absent; all mtimes t0)
@@ -160,9 +164,18 @@ type stats struct {
 
 // testData builds the caller's data (a new map each time). It varies between renders so that
 // anything a render leaves behind in shared state (cached DOM, cached front-matter) would show.
-func testData(d int) map[string]any {
+func testData(d int) any {
+	switch d {
+	case 3:
+		return nil
+	case 4:
+		return map[string]any{}
+	}
 	return map[string]any{"title": fmt.Sprintf("D%d", d), "x": fmt.Sprintf("X%d", d)}
 }
+
+// enumData: the data variant of the render at position pos of an enumerated history.
+var enumData = []int{3, 0, 4, 1}
 
 func doRender(entry, target string, d int, root vuego.Template, vue *vuego.Vue) (string, error) {
 	var buf bytes.Buffer
@@ -241,6 +254,12 @@ func execute(c Case) (error, stats) {
 			}
 			s.renders++
 			s.entries["entry:"+op.Entry] = true
+			if op.D == 3 || op.D == 4 {
+				s.entries["data:nil-or-empty:"+op.Entry] = true
+			}
+			if v, ok := m.cur(target); ok && strings.Contains(v.Content, "<template :") {
+				s.entries["page-rewrites-front-matter-key"] = true
+			}
 			ri := m.preRender(op.Entry, target)
 			if ri.rer {
 				s.rer = true
@@ -461,7 +480,7 @@ var alphabet = []letter{
 }
 
 // the two alternating valid contents per file used by the enumeration
-var enumPair = map[string][2]int{fPage: {2, 1}, fComp: {1, 0}, fMain: {1, 0}, fBase: {0, 1}}
+var enumPair = map[string][2]int{fPage: {8, 9}, fComp: {1, 0}, fMain: {1, 0}, fBase: {0, 1}}
 var enumBad = map[string]int{fPage: 5, fComp: 3, fMain: 3, fBase: 2}
 
 func buildHistory(init map[string]int, word []int) Case {
@@ -475,7 +494,7 @@ func buildHistory(init map[string]int, word []int) Case {
 		l := alphabet[li]
 		switch l.op {
 		case "render":
-			c.Ops = append(c.Ops, Op{Op: "render", Entry: l.entry, D: len(c.Ops) % 2})
+			c.Ops = append(c.Ops, Op{Op: "render", Entry: l.entry, D: enumData[len(c.Ops)%len(enumData)]})
 		case "delete":
 			exists[l.file] = false
 			c.Ops = append(c.Ops, Op{Op: "delete", File: l.file})
@@ -500,7 +519,7 @@ func buildHistory(init map[string]int, word []int) Case {
 func enumerate(t *testing.T, maxLen []int) {
 	shard, shards := run.Shard()
 	inits := []map[string]int{
-		{fPage: 1, fComp: 0, fMain: 0},           // page names layout main, no default layout
+		{fPage: 9, fComp: 0, fMain: 0},           // page names layout main, no default layout
 		{fPage: 0, fComp: 0, fMain: 1, fBase: 0}, // page without layout, default layout present, main chains to base
 	}
 	n := 0
@@ -560,7 +579,7 @@ func genCase(t *rapid.T) Case {
 	c := Case{Init: map[string]int{}}
 	cur := map[string]int{fPage: -1, fComp: -1, fMain: -1, fBase: -1} // -1 = absent
 	pick := func(label string, xs []int) int { return rapid.SampledFrom(xs).Draw(t, label) }
-	c.Init[fPage] = pick("init-page", []int{1, 0, 2, 3, 4, 7})
+	c.Init[fPage] = pick("init-page", []int{1, 8, 0, 9, 2, 3, 4, 7})
 	c.Init[fComp] = pick("init-comp", []int{0, 1, 2})
 	c.Init[fMain] = pick("init-main", []int{0, 1, 2})
 	if rapid.Bool().Draw(t, "init-base") {
@@ -596,7 +615,7 @@ func genCase(t *rapid.T) Case {
 		}
 		switch k {
 		case "render", "render-twice":
-			op := Op{Op: "render", Entry: rapid.SampledFrom(entriesW).Draw(t, "entry"), D: rapid.IntRange(0, 2).Draw(t, "data")}
+			op := Op{Op: "render", Entry: rapid.SampledFrom(entriesW).Draw(t, "entry"), D: rapid.IntRange(0, 4).Draw(t, "data")}
 			if i == 0 && warm && op.Entry == eVueFrag {
 				op.Entry = eVueRender
 			}
@@ -606,7 +625,7 @@ func genCase(t *rapid.T) Case {
 			c.Ops = append(c.Ops, op)
 			if k == "render-twice" && i < n-1 { // the same render again: the second may be answered from the cache
 				if rapid.Bool().Draw(t, "other-data") {
-					op.D = (op.D + 1) % 3
+					op.D = (op.D + 1) % 5
 				}
 				c.Ops = append(c.Ops, op)
 				i++
